@@ -90,6 +90,21 @@ def run_impl(case):
                         return 1
                     await f(x=case["pattern"])
                     out = [k for k in live if await mem.exists(k)]
+                elif len(case["keys"]) % 3 == 0:
+                    # the whole pattern is literal text of the template (braces written doubled), no field at all
+                    @cache.invalidate(case["pattern"].replace("{", "{{").replace("}", "}}"))
+                    async def lit():
+                        return 1
+                    await lit()
+                    out = [k for k in live if await mem.exists(k)]
+                elif len(case["keys"]) % 3 == 1 and len(case["pattern"]) % 2 == 0:
+                    # the pattern is the DECLARED default of a parameter: an earlier keyword call with another value must not leave it behind
+                    ns = {}
+                    exec("async def dflt(uid='u', x=%r):\n    return 1\n" % case["pattern"], ns)
+                    dflt = cache.invalidate("{x}")(ns["dflt"])
+                    await dflt(uid="1", x="zz-no-such-key-\x00")
+                    await dflt(uid="1")
+                    out = [k for k in live if await mem.exists(k)]
                 elif len(case["pattern"]) % 4 == 0:
                     # the template field is filled through args_map from a differently named parameter, and has a fallback in defaults
                     @cache.invalidate("{x}", args_map={"x": "pat"}, defaults={"x": "*"})
